@@ -1843,50 +1843,7 @@ theorem parse_err_boundary {s : List UInt8} {k : PatErr} {pos : Nat} (h : parse 
   | panic site => rw [hl] at h; cases h
   | diverge => rw [hl] at h; cases h
 
-/-! ## The macro's literal unescaper -/
-
-theorem unescapeGo_plain (c : Char) (cs acc : List Char) (h1 : c ≠ '\\') (h2 : c ≠ '"') :
-    unescapeGo (c :: cs) acc = unescapeGo cs (c :: acc) := by
-  rw [unescapeGo]
-  · intro h; exact h1 h
-  · intro h; exact h2 h
-
-theorem unescapeGo_escChar (b : Bool) (c : Char) (rest acc : List Char) :
-    unescapeGo (escChar b c ++ rest) acc = unescapeGo rest (c :: acc) := by
-  unfold escChar
-  split
-  · next h => subst h; simp [unescapeGo]
-  · split
-    · next h => subst h; simp [unescapeGo]
-    · next h1 h2 =>
-      split
-      · split
-        · next h => subst h; simp [unescapeGo]
-        · split
-          · next h => subst h; simp [unescapeGo]
-          · split
-            · next h => subst h; simp [unescapeGo]
-            · split
-              · next h => subst h; simp [unescapeGo]
-              · exact unescapeGo_plain c rest acc h1 h2
-      · exact unescapeGo_plain c rest acc h1 h2
-
-theorem unescapeGo_body : ∀ (cs : List Char) (bs : List Bool) (rest acc : List Char),
-    unescapeGo (escapeBody bs cs ++ rest) acc = unescapeGo rest (cs.reverse ++ acc) := by
-  intro cs
-  induction cs with
-  | nil => intro bs rest acc; cases bs <;> simp [escapeBody]
-  | cons c cs ih =>
-    intro bs rest acc
-    cases bs with
-    | nil => simp only [escapeBody, List.append_assoc, unescapeGo_escChar, ih]; simp
-    | cons b bs => simp only [escapeBody, List.append_assoc, unescapeGo_escChar, ih]; simp
-
-theorem unescape_escapeWith (bs : List Bool) (cs junk : List Char) :
-    unescape (escapeWith bs cs ++ junk) = .ok cs := by
-  unfold escapeWith unescape
-  simp only [List.cons_append, List.append_assoc]
-  rw [unescapeGo_body]
-  simp [unescapeGo]
+-- The lemmas about the macro's literal unescaper (`unescape`, `escapeWith`, `Spec.rustLitValue`) are in
+-- Lemmas/RustLiteral.lean.
 
 end Pelite.Pattern
